@@ -188,12 +188,13 @@ Theorem unsafe_request_is_400_in_every_state :
       (forall f, f <> error_path (pc_host c) 400 -> fc_get f fc' = fc_get f (snd st)).
 Proof. exact unsafe_step_lemma. Qed.
 
-(** 8. When the CORS Prime extensions produce no override for a request, the host answers it (and
+(** 8. When the CORS Prime extensions produce no override for a request ([eff_kind]: an [Origin] header naming
+    the site itself counts as foreign when the request target lengthens the URI's authority), the host answers it (and
     updates its caches) exactly as the same host WITHOUT any path-bound Prepare extension whose key
     contains "./" would: the internal routes do not exist for such a request, in any state. *)
 Theorem internal_routes_need_override :
   forall (c : pcfg) (st : pstate) (m t : bytes) (k : N),
-    benign_host (pc_host c) -> override_of (pc_default_ext c) m k = None ->
+    benign_host (pc_host c) -> override_of (pc_default_ext c) m (eff_kind t k) = None ->
     step_request (strip_internal c) st m t k = step_request c st m t k.
 Proof. exact no_override_strip_lemma. Qed.
 
